@@ -162,8 +162,21 @@ def merge_rules(R, pfx="C07"):
                descr="register stored only when validation produced an update")
     # the local copy those comparisons read includes accepted writes still in flight (NodeRecordStore::get serves the cache
     # without waiting for the index)
+    # the "locally held set" that gets unioned: empty only if nothing is stored under the key, otherwise the decoded transactions
+    glt = R.body(pfx + ".tx.local", PV + "get_local_transactions::{closure#0}")
+    if glt is not None:
+        absent = CallGuard([NET + "get_local_record"], ("Ok", "None"), "nothing stored under the key")
+        decoded = CallGuard(["ant_protocol::storage::header::try_deserialize_record"], ("Ok",), "the stored record decoded as transactions")
+        R.gate(pfx + ".tx.local", glt, RetSink("Ok"), [[absent, decoded]],
+               descr="get_local_transactions answers Ok only with the decoded local set, or empty when nothing is stored (a record of another kind is an error, not \"empty\")")
     from props.C01 import get_serves_unsettled
     get_serves_unsettled(R, pfx + ".local.unsettled")
+    # an accepted update really replaces the stored bytes (put_verified writes unless the identical bytes are cached) ...
+    from props.C01 import put_persist_rules
+    put_persist_rules(R, pfx + ".store")
+    # ... and "validly signed / permitted" for registers means what SignedRegister::verify and merge decide (rules of C06)
+    from props.C06 import register_rules
+    register_rules(R, pfx + ".regsem")
 
 
 def run(R):
